@@ -19,9 +19,9 @@ done
 # the compiled model files the tie needs
 MODEL="Model/Num Model/Value Model/State Model/Tracker Model/Cond Model/Modif Model/Reader Model/Action Model/Registry Proofs/ValueP"
 # compile order of the regenerated files and the tie files
-CHAIN="Generated/GlamTbl Generated/ValueSrc Generated/EventsSrc Generated/TrackerSrc Proofs/SrcTieP Generated/DataSrc Generated/CondSrc Generated/GlamTbl2 Generated/ModifSrc Proofs/SrcTie2P Generated/BevyTbl Generated/ReaderSrc Proofs/SrcTie3P Generated/ActionSrc Proofs/SrcTie4P Generated/RegTbl Generated/RegistrySrc Proofs/SrcTie5P Proofs/SrcTie6P"
+CHAIN="Generated/GlamTbl Generated/ValueSrc Generated/EventsSrc Generated/TrackerSrc Proofs/SrcTieP Generated/DataSrc Generated/CondSrc Generated/GlamTbl2 Generated/ModifSrc Proofs/SrcTie2P Generated/BevyTbl Generated/ReaderSrc Proofs/SrcTie3P Generated/ActionSrc Proofs/SrcTie4P Generated/RegTbl Generated/RegistrySrc Proofs/SrcTie5P Proofs/SrcTie6P Proofs/SrcTie7P"
 ( cd "$COQ" && [ -f Makefile ] || coq_makefile -f _CoqProject -o Makefile >/dev/null 2>&1
-  cd "$COQ" && timeout 1500 make Model/Reader.vo Proofs/ValueP.vo Proofs/SrcTie2P.vo Proofs/SrcTie3P.vo Proofs/SrcTie4P.vo Proofs/SrcTie5P.vo Proofs/SrcTie6P.vo Model/Registry.vo >/dev/null 2>&1 )
+  cd "$COQ" && timeout 1500 make Model/Reader.vo Proofs/ValueP.vo Proofs/SrcTie2P.vo Proofs/SrcTie3P.vo Proofs/SrcTie4P.vo Proofs/SrcTie5P.vo Proofs/SrcTie6P.vo Proofs/SrcTie7P.vo Model/Registry.vo >/dev/null 2>&1 )
 for f in $MODEL; do
   [ -f "$COQ/$f.vo" ] || { echo "missing $COQ/$f.vo (build the development first)"; exit 1; }
 done
@@ -48,7 +48,7 @@ tie_compiles() {
   local W="$TMP/coqwork" dirty=no
   rm -rf "$W"; mkdir -p "$W/Model" "$W/Proofs" "$W/Generated"
   for f in $MODEL; do cp "$COQ/$f.vo" "$W/$f.vo"; done
-  cp "$COQ/Proofs/SrcTieP.v" "$COQ/Proofs/SrcTie2P.v" "$COQ/Proofs/SrcTie3P.v" "$COQ/Proofs/SrcTie4P.v" "$COQ/Proofs/SrcTie5P.v" "$COQ/Proofs/SrcTie6P.v" "$W/Proofs/"
+  cp "$COQ/Proofs/SrcTieP.v" "$COQ/Proofs/SrcTie2P.v" "$COQ/Proofs/SrcTie3P.v" "$COQ/Proofs/SrcTie4P.v" "$COQ/Proofs/SrcTie5P.v" "$COQ/Proofs/SrcTie6P.v" "$COQ/Proofs/SrcTie7P.v" "$W/Proofs/"
   cp "$1"/*.v "$W/Generated/"
   for f in $CHAIN; do
     [ -f "$W/$f.v" ] || continue
@@ -205,6 +205,10 @@ run_edit registry-remove-position "$IC" '.position(|&mapped_entity| mapped_entit
 run_edit registry-remove-instances-empty "$IC" 'instances.is_empty()' '!instances.is_empty()'
 run_edit registry-remove-trigger-entity "$IC" 'instance.trigger_removed(commands, time, &[entity]);' 'instance.trigger_removed(commands, time, &[entity, entity]);'
 
+# ---- seventh wave: ContextInstances::update
+run_edit registry-update-exclusive-entities "$IC" 'ctx.update(commands, reader, time, &[*entity]);' 'ctx.update(commands, reader, time, &[*entity, *entity]);'
+run_edit registry-update-swap-arms "$IC" 'ctx.update(commands, reader, time, entities);' 'ctx.update(commands, reader, time, entities);\n                    ctx.update(commands, reader, time, entities);'
+
 # ---- outside the subset: must be reported, not guessed
 run_unsupported() {
   local name="$1" file="$2"
@@ -228,6 +232,7 @@ run_unsupported unsupported-bevy-call "$IR" '&& self.keys.pressed(key)' '&& self
 run_unsupported unsupported-action-early-return "$CI" 'let state = tracker.state();\n        let value = tracker.value()' 'let state = tracker.state();\n        if state == ActionState::None { return; }\n        let value = tracker.value()'
 run_unsupported unsupported-registry-ne "$IC" 'group.type_id() == TypeId::of::<C>()' 'group.type_id() != TypeId::of::<C>()'
 run_unsupported unsupported-registry-truncate "$IC" 'self.0.remove(group_index);' 'self.0.truncate(group_index);'
+run_unsupported unsupported-registry-update-shared-first-entity "$IC" 'ctx.update(commands, reader, time, entities);' 'ctx.update(commands, reader, time, &entities[..1]);'
 run_unsupported unsupported-extra-loop-statement "$TT" '        for condition in conditions {' '        self.blocked = false;\n        for condition in conditions {'
 
 if [ "$FAIL" = 0 ]; then echo "selftest: PASS"; else echo "selftest: FAIL"; exit 1; fi
